@@ -13,15 +13,15 @@ theorem idx_getD (l : List Nat) (k : Nat) (h : k < l.length) : Res.idx l k = .ok
 
 /-- the hypotheses under which `concatenate` along `k` is specified (`concatenate_coord`) -/
 def Joinable (k : Nat) (a0 : Arr α) (rest : List (Arr α)) : Prop :=
-  (∀ b ∈ a0 :: rest, b.WF ∧ k < b.ndim ∧ b.shape.eraseIdx k = a0.shape.eraseIdx k) ∧ 0 ∉ a0.shape.eraseIdx k
+  ∀ b ∈ a0 :: rest, b.WF ∧ k < b.ndim ∧ b.shape.eraseIdx k = a0.shape.eraseIdx k
 
 theorem joinable_validate (k : Nat) (a0 : Arr α) (rest : List (Arr α)) (h : Joinable k a0 rest) :
     validateStackShapes (a0 :: rest) k k = .ok () :=
-  validate_ok k (a0.shape.eraseIdx k) _ (fun b hb => ⟨(h.1 b hb).2.1, (h.1 b hb).2.2⟩)
+  validate_ok k (a0.shape.eraseIdx k) _ (fun b hb => ⟨(h b hb).2.1, (h b hb).2.2⟩)
 
 theorem joinable_dims (k : Nat) (a0 : Arr α) (rest : List (Arr α)) (h : Joinable k a0 rest) :
     Res.mapM' (fun (b : Arr α) => Res.idx b.shape k) (a0 :: rest) = .ok ((a0 :: rest).map (axLen k)) :=
-  mapM'_ok _ _ _ (fun b hb => idx_getD _ _ (h.1 b hb).2.1)
+  mapM'_ok _ _ _ (fun b hb => idx_getD _ _ (h b hb).2.1)
 
 /-- the common tail of `hstack` / `dstack`: validation, summing the axis lengths, joining and the final reshape
 are together just `concatenate` -/
@@ -31,7 +31,7 @@ theorem join_tail (zero : α) (k : Nat) (a0 : Arr α) (rest : List (Arr α)) (h 
       (Res.idx (a0 :: rest) 0) >>= fun a0' =>
       concatenate (a0 :: rest) zero (some k) >>= fun c => c.reshape (a0'.shape.set k ds.sum))
       = concatenate (a0 :: rest) zero (some k) := by
-  obtain ⟨r, h1, h2, h3, _⟩ := concatenate_coord zero k a0 rest h.1 h.2
+  obtain ⟨r, h1, h2, h3, _⟩ := concatenate_coord zero k a0 rest h
   rw [joinable_validate k a0 rest h, Res.bind_ok, joinable_dims k a0 rest h, Res.bind_ok]
   have : Res.idx (a0 :: rest) 0 = .ok a0 := rfl
   rw [this, Res.bind_ok, h1, Res.bind_ok, ← h2, reshape_self r h3]
@@ -39,7 +39,7 @@ theorem join_tail (zero : α) (k : Nat) (a0 : Arr α) (rest : List (Arr α)) (h 
 /-- **`vstack` of inputs of rank ≠ 1 is `concatenate` along axis 0** -/
 theorem vstack_nd (zero : α) (a0 : Arr α) (rest : List (Arr α)) (h : Joinable 0 a0 rest) (h1 : a0.shape.length ≠ 1) :
     vstack (a0 :: rest) zero = concatenate (a0 :: rest) zero (some 0) := by
-  obtain ⟨r, g1, g2, g3, _⟩ := concatenate_coord zero 0 a0 rest h.1 h.2
+  obtain ⟨r, g1, g2, g3, _⟩ := concatenate_coord zero 0 a0 rest h
   unfold Arr.vstack
   dsimp only
   rw [joinable_validate 0 a0 rest h, Res.bind_ok, if_neg h1, joinable_dims 0 a0 rest h]
@@ -114,7 +114,7 @@ theorem flatMap_map_elems {β} (f : β → Arr α) (l : List β) : (l.map f).fla
 
 /-- **`vstack` of 1-D inputs of one length is `concatenate` along axis 0 of the inputs promoted by `atleast(2)`**:
 both are the rows laid under each other, shape `[count, n]` -/
-theorem vstack_1d (zero : α) (n : Nat) (hn : 0 < n) (a0 : Arr α) (rest : List (Arr α))
+theorem vstack_1d (zero : α) (n : Nat) (a0 : Arr α) (rest : List (Arr α))
     (h : ∀ b ∈ a0 :: rest, b.WF ∧ b.shape = [n]) :
     vstack (a0 :: rest) zero = .ok ⟨(a0 :: rest).flatMap (·.elems), [rest.length + 1, n]⟩ ∧
     (Res.mapM' (fun (a : Arr α) => a.atleast 2) (a0 :: rest) >>= fun l => concatenate l zero (some 0))
@@ -124,10 +124,9 @@ theorem vstack_1d (zero : α) (n : Nat) (hn : 0 < n) (a0 : Arr α) (rest : List 
   have hF : ((a0 :: rest).flatMap (·.elems)).length = (rest.length + 1) * n := by
     rw [length_flatMap_uniform _ n _ hlen]; rfl
   constructor
-  · have hj : Joinable 0 a0 rest := by
-      refine ⟨fun b hb => ⟨(h b hb).1, by rw [Arr.ndim, (h b hb).2]; simp, by rw [(h b hb).2, (h a0 List.mem_cons_self).2]⟩, ?_⟩
-      rw [(h a0 List.mem_cons_self).2]; simp
-    have hc := concatenate_axis0 zero [] (by simp) a0 rest (fun b hb => ⟨(h b hb).1, by rw [hax b hb]; exact (h b hb).2⟩)
+  · have hj : Joinable 0 a0 rest :=
+      fun b hb => ⟨(h b hb).1, by rw [Arr.ndim, (h b hb).2]; simp, by rw [(h b hb).2, (h a0 List.mem_cons_self).2]⟩
+    have hc := concatenate_axis0 zero [] a0 rest (fun b hb => ⟨(h b hb).1, by rw [hax b hb]; exact (h b hb).2⟩)
     rw [sum_map_const _ n _ hax] at hc
     unfold Arr.vstack
     dsimp only
@@ -139,7 +138,7 @@ theorem vstack_1d (zero : α) (n : Nat) (hn : 0 < n) (a0 : Arr α) (rest : List 
       mapM'_ok _ _ _ (fun b hb => atleast2_rank1 b n (h b hb).1 (h b hb).2)
     rw [hprom, Res.bind_ok]
     have e : (a0 :: rest).map (prom2 n) = prom2 n a0 :: rest.map (prom2 n) := rfl
-    have hc := concatenate_axis0 zero [n] (by simp; omega) (prom2 n a0) (rest.map (prom2 n)) (by
+    have hc := concatenate_axis0 zero [n] (prom2 n a0) (rest.map (prom2 n)) (by
         intro b hb
         rw [← e] at hb
         obtain ⟨x, hx, rfl⟩ := List.mem_map.1 hb
